@@ -53,6 +53,28 @@
 (*                                  context that creates the tables issues  *)
 (*                                  PRAGMA journal_mode = WAL               *)
 (*                                                                          *)
+(*      "CommitSkippedWhenUnchanged" - (hypothetical, Demo only) the       *)
+(*                                  bootstrap write is committed only when  *)
+(*                                  it changed something (the page was      *)
+(*                                  stored by another worker in between:    *)
+(*                                  statement done, row ignored, no commit) *)
+(*                                                                          *)
+(* TRANSACTIONS.  Every connection has a transaction state `txn`: "none"    *)
+(* (autocommit), "write" (a write statement ran: sqlite3 issued BEGIN, the  *)
+(* statement took the write lock of the database - ALSO when it ends up     *)
+(* changing nothing - and the lock stays with the connection until commit,  *)
+(* rollback or close) or "begun" (BEGIN issued, the statement failed: open  *)
+(* transaction without the write lock).  A read transaction is the open     *)
+(* cursor (snap[p].on).  wlock[i] = p exactly when p is open on i with      *)
+(* txn[p] = "write" (TxnLockAgree).  A context is IDLE when no library call *)
+(* is active on it (page work over - also by an exception - and not yet     *)
+(* closed).  The library must end every write transaction it begins before  *)
+(* the call returns (NoIdleTransaction): an idle context may stay open for  *)
+(* longer than any busy timeout (it has other pages to process, or waits    *)
+(* for the pool to finish), so a writer that finds the lock with an idle    *)
+(* holder fails with "database is locked" (IdleHeld), whereas waiting for a *)
+(* holder inside its short critical section always ends (LockWait.tla).     *)
+(*                                                                          *)
 (* JOURNAL MODE.  The mode is a property of the database FILE (header bytes *)
 (* 18/19), field `jm` of an inode: "wal" or "del" (rollback journal, the    *)
 (* default of every file SQLite creates).  It travels with the file: a      *)
@@ -96,6 +118,7 @@ BootcheckNeverHits == "BootcheckNeverHits" \in Dev
 CloseTidies == "CloseRemovesSideFiles" \in Dev
 BackupDropsMode == "BackupDropsJournalMode" \in Dev
 ModeByCreatorOnly == "ModeSetByCreatorOnly" \in Dev
+CommitSkipped == "CommitSkippedWhenUnchanged" \in Dev
 
 D == 0                       \* the creating context (driver); only ever closes
 PAll == Procs \cup {D}
@@ -120,10 +143,11 @@ VARIABLES
   raced,         \* ghost: a process restored on the basis of a check that was no longer true
   snapfail,      \* ghost: a bootstrap write failed because of a stale read snapshot
   opn,           \* process -> its connection is open (connect .. close)
+  txn,           \* process -> transaction state of its connection: "none" | "write" | "begun"
   life           \* ghost: lifetime pattern of the run: nlcD/nlcW = the driver / a worker closed while
                  \* another connection was open; lateD/lateW = a context connected after such a close
 
-vars == <<scn, pmain, pbak, ino, wlock, pc, conn, snap, saw, res, chk, raced, snapfail, opn, life>>
+vars == <<scn, pmain, pbak, ino, wlock, pc, conn, snap, saw, res, chk, raced, snapfail, opn, life, txn>>
 
 BakPresent == scn.bak
 BootPresent == scn.boot
@@ -155,6 +179,7 @@ Init ==
   /\ chk = [p \in PAll |-> 0]
   /\ raced = FALSE /\ snapfail = FALSE
   /\ life = NoLife
+  /\ txn = [p \in PAll |-> "none"]      \* the creating context has committed what it stored
 
 FreeIno == CHOOSE i \in Inodes : ~ino[i].used
 View(p) == IF snap[p].on THEN snap[p].c ELSE ino[conn[p]].c
@@ -170,19 +195,19 @@ Exists(p) ==
      ELSE \* ideal: check, unlink and rename are one indivisible step
           Go(p, "connect") /\ pmain' = pbak /\ pbak' = 0
   /\ chk' = [chk EXCEPT ![p] = pbak]
-  /\ UNCHANGED <<ino, wlock, conn, snap, saw, res, raced, snapfail, opn, life>>
+  /\ UNCHANGED <<ino, wlock, conn, snap, saw, res, raced, snapfail, opn, life, txn>>
 
 Unlink(p) ==
   /\ pc[p] = "unlink" /\ pmain' = 0 /\ Go(p, "rename")
   /\ raced' = (raced \/ pbak # chk[p])
-  /\ UNCHANGED <<pbak, ino, wlock, conn, snap, saw, res, chk, snapfail, opn, life>>
+  /\ UNCHANGED <<pbak, ino, wlock, conn, snap, saw, res, chk, snapfail, opn, life, txn>>
 
 Rename(p) ==
   /\ pc[p] = "rename"
   /\ IF pbak = 0 THEN Fail(p, "fnf") /\ UNCHANGED <<pmain, pbak>>
      ELSE pmain' = pbak /\ pbak' = 0 /\ Go(p, "connect") /\ res' = res
   /\ raced' = (raced \/ pbak # chk[p])
-  /\ UNCHANGED <<ino, wlock, conn, snap, saw, chk, snapfail, opn, life>>
+  /\ UNCHANGED <<ino, wlock, conn, snap, saw, chk, snapfail, opn, life, txn>>
 
 Connect(p) ==
   /\ pc[p] = "connect"
@@ -193,7 +218,7 @@ Connect(p) ==
   /\ Go(p, "script")
   /\ opn' = [opn EXCEPT ![p] = TRUE]
   /\ life' = [life EXCEPT !.lateD = @ \/ life.nlcD, !.lateW = @ \/ life.nlcW]
-  /\ UNCHANGED <<pbak, wlock, snap, saw, res, chk, raced, snapfail>>
+  /\ UNCHANGED <<pbak, wlock, snap, saw, res, chk, raced, snapfail, txn>>
 
 \* First access of the connection (CREATE TABLE IF NOT EXISTS ...; PRAGMA ...): SQLite
 \* opens the -shm/-wal files beside the path and refuses ("disk I/O error") when the file
@@ -210,7 +235,7 @@ Script(p) ==
              ELSE wlock[conn[p]] = 0 /\ ino' = [ino EXCEPT ![conn[p]].tabs = TRUE, ![conn[p]].ver = @ + 1,
                                                            ![conn[p]].jm = IF SetsWal(p) THEN "wal" ELSE @]
           /\ Go(p, IF Cursor(p) THEN "cursor" ELSE "read1") /\ res' = res /\ opn' = opn
-  /\ UNCHANGED <<pmain, pbak, wlock, conn, snap, saw, chk, raced, snapfail, life>>
+  /\ UNCHANGED <<pmain, pbak, wlock, conn, snap, saw, chk, raced, snapfail, life, txn>>
 
 (* ---- page work ---- *)
 \* the iterator over the stored pages stays open (if there is any page to iterate over)
@@ -220,13 +245,13 @@ OpenCursor(p) ==
                                   THEN [on |-> TRUE, c |-> ino[conn[p]].c, ver |-> ino[conn[p]].ver]
                                   ELSE NoSnap]
   /\ Go(p, "read1")
-  /\ UNCHANGED <<pmain, pbak, ino, wlock, conn, saw, res, chk, raced, snapfail, opn, life>>
+  /\ UNCHANGED <<pmain, pbak, ino, wlock, conn, saw, res, chk, raced, snapfail, opn, life, txn>>
 
 Read(p, here, next) ==
   /\ pc[p] = here
   /\ IF Exp \in View(p) THEN Go(p, next) /\ res' = res
      ELSE Fail(p, IF View(p) \ {"boot"} = {} THEN "missing" ELSE "stale")
-  /\ UNCHANGED <<pmain, pbak, ino, wlock, conn, snap, saw, chk, raced, snapfail, opn, life>>
+  /\ UNCHANGED <<pmain, pbak, ino, wlock, conn, snap, saw, chk, raced, snapfail, opn, life, txn>>
 Read1(p) == Read(p, "read1", "bootcheck")
 
 BootFound(p) == "boot" \in View(p) /\ ~BootcheckNeverHits
@@ -234,18 +259,33 @@ Bootcheck(p) ==
   /\ pc[p] = "bootcheck"
   /\ saw' = [saw EXCEPT ![p] = BootFound(p)]
   /\ Go(p, IF BootFound(p) THEN "read2" ELSE "insert")
-  /\ UNCHANGED <<pmain, pbak, ino, wlock, conn, snap, res, chk, raced, snapfail, opn, life>>
+  /\ UNCHANGED <<pmain, pbak, ino, wlock, conn, snap, res, chk, raced, snapfail, opn, life, txn>>
 
 \* A connection that holds a read transaction (the open cursor) cannot wait for the write
 \* lock (SQLite does not run the busy handler then) and cannot upgrade a stale snapshot:
 \* "database is locked" at once in both cases.
 InsertFails(p) == BootSnap /\ snap[p].on /\ (snap[p].ver # ino[conn[p]].ver \/ wlock[conn[p]] # 0)
+\* A context is idle when no library call is active on it: its page work is over (done or failed by an
+\* exception) and it has not been closed yet.  Nothing bounds the time it stays like that.
+Idle(q) == opn[q] /\ pc[q] \in {"done", "failed"}
+\* The write lock is with a connection that is idle: the holder is not inside a critical section that ends
+\* by itself, the lock lives as long as the holder's context.  The busy handler of a writer that meets it
+\* gives up after the busy timeout ("database is locked") - unless the holder happens to close first, which
+\* is the other interleaving (Close(holder) before this step).
+IdleHeld(p) == wlock[conn[p]] \notin {0, p} /\ Idle(wlock[conn[p]])
+\* the bootstrap write: sqlite3 issues BEGIN, the statement takes the write lock - whether or not it ends
+\* up changing a row - and the transaction stays open until the commit that follows
+SkipsCommit(p) == CommitSkipped /\ "boot" \in ino[conn[p]].c
 Insert(p) ==
   /\ pc[p] = "insert"
   /\ IF InsertFails(p)
-     THEN Fail(p, "locked") /\ wlock' = wlock /\ snapfail' = TRUE
+     THEN Fail(p, "locked") /\ wlock' = wlock /\ snapfail' = TRUE /\ txn' = [txn EXCEPT ![p] = "begun"]
+     ELSE IF IdleHeld(p)
+     THEN Fail(p, "locked") /\ wlock' = wlock /\ snapfail' = snapfail /\ txn' = [txn EXCEPT ![p] = "begun"]
      ELSE /\ wlock[conn[p]] = 0                  \* otherwise the busy handler waits
-          /\ wlock' = [wlock EXCEPT ![conn[p]] = p] /\ Go(p, "commit") /\ res' = res /\ snapfail' = snapfail
+          /\ wlock' = [wlock EXCEPT ![conn[p]] = p] /\ res' = res /\ snapfail' = snapfail
+          /\ txn' = [txn EXCEPT ![p] = "write"]
+          /\ Go(p, IF SkipsCommit(p) THEN "read2" ELSE "commit")
   /\ UNCHANGED <<pmain, pbak, ino, conn, snap, saw, chk, raced, opn, life>>
 
 \* an upsert that stores what is stored already writes nothing: no new version
@@ -258,10 +298,11 @@ RollbackBlocked(p) == ino[conn[p]].jm = "del" /\ Readers(conn[p], p) # {}
 Commit(p) ==
   /\ pc[p] = "commit"
   /\ IF RollbackBlocked(p)
-     THEN Fail(p, "locked") /\ UNCHANGED <<ino, wlock, snap>>
+     THEN Fail(p, "locked") /\ UNCHANGED <<ino, wlock, snap, txn>>     \* still inside its write transaction
      ELSE /\ ino' = [ino EXCEPT ![conn[p]].c = @ \cup {"boot"},
                                 ![conn[p]].ver = IF "boot" \in ino[conn[p]].c THEN @ ELSE @ + 1]
           /\ wlock' = [wlock EXCEPT ![conn[p]] = 0]
+          /\ txn' = [txn EXCEPT ![p] = "none"]
           /\ snap' = [snap EXCEPT ![p] = IF snap[p].on
                                           THEN [on |-> TRUE, c |-> ino'[conn[p]].c, ver |-> ino'[conn[p]].ver]
                                           ELSE NoSnap]
@@ -272,7 +313,7 @@ Read2(p) ==
   /\ pc[p] = "read2"
   /\ IF Exp \in View(p) THEN Go(p, "done") /\ res' = [res EXCEPT ![p] = "ok"]
      ELSE Fail(p, IF View(p) \ {"boot"} = {} THEN "missing" ELSE "stale")
-  /\ UNCHANGED <<pmain, pbak, ino, wlock, conn, snap, saw, chk, raced, snapfail, opn, life>>
+  /\ UNCHANGED <<pmain, pbak, ino, wlock, conn, snap, saw, chk, raced, snapfail, opn, life, txn>>
 
 (* ---- close_db_conn ---- *)
 \* commit (nothing pending) + close of the connection.  SQLite: the last connection that
@@ -283,7 +324,7 @@ Read2(p) ==
 \* a connection is attached to the side files from its first access on (sqlite3.connect alone
 \* only opens the main file)
 OnIno(i) == {q \in PAll : opn[q] /\ conn[q] = i /\ pc[q] # "script"}
-CanClose(p) == opn[p] /\ pc[p] \in {"done", "failed"}
+CanClose(p) == Idle(p)
 Close(p) ==
   /\ CanClose(p)
   /\ LET i == conn[p]
@@ -303,8 +344,10 @@ Close(p) ==
   /\ snap' = [snap EXCEPT ![p] = NoSnap]
   /\ pc' = [pc EXCEPT ![p] = IF pc[p] = "done" THEN "closed" ELSE "failed"]
   /\ scn' = scn
-  \* a writer whose commit failed still holds its lock: closing the connection releases it
+  \* a connection that is still inside a write transaction (failed commit; a write that was never
+  \* committed) holds the lock up to here: close_db_conn commits, closing the connection releases it
   /\ wlock' = [j \in Inodes |-> IF wlock[j] = p THEN 0 ELSE wlock[j]]
+  /\ txn' = [txn EXCEPT ![p] = "none"]
   /\ UNCHANGED <<pbak, saw, res, chk, raced, snapfail>>
 
 Step(p) == Exists(p) \/ Unlink(p) \/ Rename(p) \/ Connect(p) \/ Script(p) \/ OpenCursor(p)
@@ -333,4 +376,16 @@ NoDeadlock == AllDone \/ (\E p \in PAll : ENABLED Step(p))
 \* was at the path (the rule the reader/writer independence above rests on)
 AtWork(p) == pc[p] \in {"cursor", "read1", "bootcheck", "insert", "commit", "read2"}
 WalAtWork == \A p \in Procs : AtWork(p) => ino[conn[p]].jm = "wal"
+\* transaction state and write lock are two views of one thing
+TxnLockAgree == /\ \A i \in Inodes : wlock[i] # 0 => (opn[wlock[i]] /\ conn[wlock[i]] = i /\ txn[wlock[i]] = "write")
+                /\ \A p \in PAll : txn[p] = "write" => (opn[p] /\ wlock[conn[p]] = p)
+                /\ \A p \in PAll : ~opn[p] => txn[p] = "none"
+\* no connection is inside an open transaction while no library call is active on it: every statement
+\* that begins a write transaction is followed by a commit on every path of the same call
+NoIdleTransaction == \A p \in PAll : Idle(p) => txn[p] = "none"
+\* the code as it is: only the statement that failed leaves a transaction open (BEGIN issued, no lock)
+DoneMeansCommitted == \A p \in PAll : (Idle(p) /\ pc[p] = "done") => txn[p] = "none"
+\* the part of it that other workers feel: an idle context never holds the write lock
+NoIdleWriteLock == \A p \in PAll : Idle(p) => txn[p] # "write"
+InTxn(p) == txn[p] # "none"
 =============================================================================
